@@ -285,8 +285,14 @@ def component(pred):
     return c
 
 
-PREDS = ("c05_window_ok", "c05_zero_window_ok", "c05_zero_window_strict", "c05_rto_single_ok", "c05_rto_exit_ok",
-         "c05_slow_start_ok", "c05_monitor_ok")
+# Session 5: c05_window_ok (Conn/C05_Pred.v) had a pattern defect (`p1 :: _ as data` binds the TAIL: the first ST_DATA of the
+# poll was left out of the sum) - replaced by c05_window_ok2 (whole list; THEOREM of every step / trace under the observable guard
+# c05_win_guard).  c05_rto_exit_ok and c05_zero_window_ok are FALSE of the model as written (c05_rto_exit_ok_b6_refuted: boundary
+# B6 when the peer's payload raised min_ss to max_ss; c05_zero_window_ok_closed_refuted: a poll that ends closed) - replaced by
+# their proved forms c05_rto_exit_ok2 / c05_zero_window_ok_open.  c05_rto_single_ok, c05_monitor_core_ok: theorems of every
+# trace.  Still monitored only: c05_zero_window_strict (known class D16), c05_slow_start_ok, c05_monitor_ok (never-sent-suffix).
+PREDS = ("c05_window_ok2", "c05_zero_window_ok_open", "c05_zero_window_strict", "c05_rto_single_ok", "c05_rto_exit_ok2",
+         "c05_slow_start_ok", "c05_monitor_ok", "c05_monitor_core_ok")
 # one pass over the traces evaluates all predicates (the driver reports the first one that fails,
 # by name); one component per predicate costs a full differential run each
 
